@@ -466,6 +466,29 @@ def check_history(spec):
                 except Exception:
                     pass
                 seen_transform = True
+            elif kind in ("wrap-cse", "tag-cse", "flatten", "deps", "expand"):
+                # helpers and mappers that take the node and hand back a related one:
+                # the argument is never the thing that changes
+                try:
+                    if kind == "wrap-cse":
+                        pre = ("tmp", "u", None)[op[2] % 3]
+                        p.wrap_in_cse(x, pre)
+                        p.make_common_subexpression(x, pre)
+                    elif kind == "tag-cse":
+                        from pymbolic.cse import tag_common_subexpressions
+                        tag_common_subexpressions([x, p.Sum((x, 1)), pool[op[2] % n]])
+                    elif kind == "flatten":
+                        from pymbolic.mapper.flattener import flatten
+                        flatten(x)
+                    elif kind == "deps":
+                        from pymbolic.mapper.dependency import DependencyMapper
+                        DependencyMapper(include_cses=True)(x)
+                    else:
+                        from pymbolic.mapper.distributor import distribute
+                        distribute(x)
+                except Exception:
+                    pass    # node types these helpers do not handle are not C01's business
+                seen_transform = True
             elif kind == "str":
                 try:
                     str(x)
@@ -718,12 +741,17 @@ def hier_case(draw):
 
 
 OPS = ("hash", "eq", "ne", "lookup", "copy", "deepcopy", "pickle", "identity",
-       "cached-identity", "subst", "str", "mutate")
+       "cached-identity", "subst", "str", "mutate", "wrap-cse", "tag-cse", "flatten",
+       "deps", "expand")
 
 
 @st.composite
 def history_case(draw):
     base = draw(S.any_expr(draw(st.integers(1, 3))))
+    if draw(st.integers(0, 4)) == 0:
+        # wrappers (unnamed / named) are what the CSE helpers look at most closely
+        base = ["CommonSubexpression", base, draw(st.sampled_from((None, None, "u"))),
+                draw(st.sampled_from(S.SCOPES))]
     pool = [base, base]
     for _ in range(draw(st.integers(0, 2))):
         b, _ = draw(derive(base))
